@@ -38,17 +38,24 @@ def _build(case):
     return parser, names, cmds
 
 
-def _parse(parser, argv):
-    """-> ('ok', namespace) | ('exit', code) | ('exc', name)"""
+def _parse(parser, argv, from_sys_argv=False):
+    """-> ('ok', namespace) | ('exit', code) | ('exc', name); from_sys_argv: parse_args() without arguments"""
     err = io.StringIO()
+    old_argv = sys.argv
     try:
         with contextlib.redirect_stderr(err), contextlib.redirect_stdout(err):
-            ns = parser.parse_args(list(argv))
+            if from_sys_argv:
+                sys.argv = ['prog'] + list(argv)
+                ns = parser.parse_args()
+            else:
+                ns = parser.parse_args(list(argv))
         return 'ok', ns
     except SystemExit as e:
         return 'exit', e.code
     except Exception as e:
         return 'exc', type(e).__name__ + ': ' + str(e)[:100]
+    finally:
+        sys.argv = old_argv
 
 
 def check_case(case):
@@ -132,7 +139,7 @@ def check_case(case):
         free.append(['-v', names[i], 'word'])
         tagged.append(names[i])
     for argv in free + [['--tag', x] for x in tagged]:
-        r, ns = _parse(parser, argv)
+        r, ns = _parse(parser, argv, from_sys_argv=(len(argv) % 2 == 1))     # explicit list / taken from sys.argv
         np_ += 1
         if argv and argv[0] == '--tag':
             words = []
